@@ -69,9 +69,13 @@ def loop_nests(depth_max):
                             yield tag, [OBS_DECL] + stmts + [mark("done")]
 
 
+# the documented truthiness table, a falsey and a truthy representative of every kind it lists
 COND_VALS = [("false", lit(vbool(False))), ("true", lit(vbool(True))), ("0", I(0)), ("7", I(7)),
              ("empty-str", lit(vstr(""))), ("str", lit(vstr("a"))), ("null", lit(vnull())), ("empty-arr", arr()),
-             ("0.0", lit(vfloat(0.0))), ("nan", lit(vfloat("nan")))]
+             ("arr", arr(I(0))), ("0.0", lit(vfloat(0.0))), ("-0.0", un("-", lit(vfloat(0.0)))), ("0.5", lit(vfloat(0.5))),
+             ("nan", lit(vfloat("nan"))), ("byte-0", call("byte", I(0))), ("byte-48", call("byte", I(48))),
+             ("char-0", call("char", I(0))), ("char-48", call("char", I(48))), ("empty-map", map_()),
+             ("map", map_((I(0), I(0))))]
 BODIES = [("value", lambda n: [expr(I(n))]), ("let", lambda n: [let("t", I(n))]), ("empty", lambda n: []),
           ("stmts", lambda n: [obs(I(-n)), expr(I(n))])]
 
@@ -82,8 +86,12 @@ def if_chains(maxlen, rnd, limit):
         for conds in itertools.product(range(len(COND_VALS)), repeat=k):
             for has_else in (False, True):
                 out.append((conds, has_else))
-    rnd.shuffle(out)
-    for conds, has_else in out[:limit]:
+    # all chains of length 1 and 2, a seeded sample of the longer ones
+    short = [c for c in out if len(c[0]) <= 2]
+    longer = [c for c in out if len(c[0]) > 2]
+    rnd.shuffle(longer)
+    out = short + longer
+    for conds, has_else in out[:max(limit, len(short))]:
         bsel = [rnd.randrange(len(BODIES)) for _ in range(len(conds) + 1)]
         node = {"t": "blk", "b": BODIES[bsel[-1]][1](99)} if has_else else {"t": "none"}
         for i in range(len(conds) - 1, -1, -1):
